@@ -162,3 +162,19 @@ func TestKF_TombstoneConsumesLimit(t *testing.T) {
 		return nil
 	})
 }
+
+func TestKF_SparseRangeScanMissingDir(t *testing.T) {
+	db, dir := kfOpen(t, HintBPTSparseIdxMode, 4096)
+	if err := db.Update(func(tx *Tx) error { return tx.Put("b", []byte("k"), []byte("v"), 0) }); err != nil {
+		t.Fatal(err)
+	}
+	os.RemoveAll(dir) // the segment can no longer be opened
+	defer func() {
+		if r := recover(); r != nil {
+			t.Errorf("REPRODUCED: RangeScan in sparse mode panics when the segment cannot be opened: %v", r)
+		}
+	}()
+	tx, _ := db.Begin(false)
+	_, _ = tx.RangeScan("b", []byte("a"), []byte("z"))
+	_ = tx.Rollback()
+}
